@@ -1,0 +1,55 @@
+package tcp
+
+import (
+	"io"
+	"net"
+
+	gkm "github.com/go-kit/kit/metrics"
+)
+
+// closeWriter is implemented by connections which can shut down their
+// write side while the read side stays open (TCP half-close).
+type closeWriter interface {
+	CloseWrite() error
+}
+
+// closeWrite signals the end of the stream to the peer of c. If c does not
+// support a half-close the connection is closed.
+func closeWrite(c net.Conn) {
+	if cw, ok := c.(closeWriter); ok {
+		if err := cw.CloseWrite(); err == nil {
+			return
+		}
+	}
+	c.Close()
+}
+
+// tunnel copies data between in and out in both directions. src is the
+// reader for the in -> out direction (it may be a buffered reader on top
+// of in). When one side finishes sending, the end of its stream is passed
+// on to the other side and the opposite direction keeps running until it
+// finishes as well, e.g. a client that half-closes the connection after
+// sending its request still receives the reply. An error in either
+// direction tears down the tunnel.
+func tunnel(in, out net.Conn, src io.Reader, rx, tx gkm.Counter) error {
+	errc := make(chan error, 2)
+	go func() {
+		err := copyBuffer(in, out, rx)
+		if err == nil {
+			closeWrite(in)
+		}
+		errc <- err
+	}()
+	go func() {
+		err := copyBuffer(out, src, tx)
+		if err == nil {
+			closeWrite(out)
+		}
+		errc <- err
+	}()
+	err := <-errc
+	if err == nil {
+		err = <-errc
+	}
+	return err
+}
